@@ -139,6 +139,11 @@ def step(w, kind, op):
         dst = w.unit(op[3])
         r = w.q(op[1], op[2]).in_unit(dst)
         return enc_q(w, r, dst)
+    if kind == "build":
+        # intern the unit expressions of a query without asking anything
+        for t in op[1]:
+            w.unit(t)
+        return True
     if kind == "chain":
         units = [w.unit(t) for t in op[2]]
         q = m.Quantity(M.dec_mag(op[1]), units[0])
